@@ -710,7 +710,16 @@ def _shrink_string(s, pred):
     return "".join(toks)
 
 
+_SHRUNK = {}
+
+
 def report_wrap(chk, call, sig, site="wrap_string"):
+    key = str(sorted(sig.items()))
+    _SHRUNK[key] = _SHRUNK.get(key, 0) + 1
+    if _SHRUNK[key] > 3:
+        # already reported (confirmed and minimised) three times on this run: only count further occurrences
+        chk.count("repeat:" + sig["class"] + "/" + sig["kind"])
+        return
     sig2, r = _confirm_wrap_violation(call, site)
     if sig2 != sig:
         chk.count("flaky:judge")
@@ -720,7 +729,7 @@ def report_wrap(chk, call, sig, site="wrap_string"):
         c2 = dict(call, s=s2)
         return _confirm_wrap_violation(c2, site)[0] == sig
 
-    s = _shrink_string(call["s"], pred) if len(chk.violations) < 4 else call["s"]
+    s = _shrink_string(call["s"], pred)
     mc = dict(call, s=s)
     mc.pop("lines", None)
     r = impl_wrap_string(mc)
@@ -732,16 +741,24 @@ def model_wrap_string(drv, calls):
     return drv.batch([{"op": "wrap_string", "s": c["s"], "version": c["version"], "first": c["first"]} for c in calls])
 
 
+_CONFIRMED = {}
+
+
 def compare(chk, drv, unit, case, ri, rm, rerun_impl, rerun_model):
     """model vs implementation for one case; confirmed in-process before it is reported"""
     chk.traces_validated += 1
     if ri == rm:
         return True
     chk.disagreements_checked += 1
+    if _CONFIRMED.get(unit, 0) >= 5:
+        # five disagreements of this unit were already confirmed in-process and reported: only count the rest
+        chk.count("repeat:disagreement")
+        return False
     ri2, rm2 = rerun_impl(case), rerun_model(case)
     if ri2 == rm2:
         chk.count("flaky:correspondence")
         return True
+    _CONFIRMED[unit] = _CONFIRMED.get(unit, 0) + 1
     chk.broken_obligation("correspondence", unit, {"impl": ri2, "model": rm2}, case)
     return False
 
